@@ -327,6 +327,12 @@ def flatten_dfs(dfs_features, labels, column_name='Label'):
     labels = np.array(labels) if isinstance(labels, list) else labels
     labels = labels.flatten()
 
+    # Label copies: a dataframe may be listed more than once, under different labels
+    if isinstance(dfs_features[0], pd.DataFrame):
+        dfs_features = [df.copy() for df in dfs_features]
+    elif isinstance(dfs_features[0][0], pd.DataFrame):
+        dfs_features = [[df.copy() for df in dfs] for dfs in dfs_features]
+
     if isinstance(dfs_features[0], pd.DataFrame):
 
         if len(labels) != len(dfs_features):
